@@ -23,8 +23,10 @@ RULE = ('cases: (dbscan) 1-14 points on small integer grids (duplicates, colline
 TRUSTED = ['f64 arithmetic on integer-valued costs/distances below 2^53 is exact; sum/len averages in k-medoids order like the sums (validated each run)',
            'HashMap/HashSet iteration order is modelled as an oracle; exact output comparison only on runs where the model saw no order-dependent tie',
            'rayon chunking of fold_reduce is an oracle argument of the model; the harness pins it with a 1-thread pool (two halves) for exact comparison and also runs the default pool for the contract oracle']
-ASSUMPTIONS = ['LKH cost clause: symmetric cost matrix (the property quantifies over symmetric matrices only)',
-               'termination of LKH is proved over exact (integer/rational) costs, not over f64 rounding']
+ASSUMPTIONS = ['LKH cost and termination clauses (C17_lkh_cost, C17_lkh_terminates): symmetric cost matrix (the property quantifies over '
+               'symmetric matrices only), duplicate-free input path, hash order returns entries of the map',
+               'LKH cost / termination are proved over exact integer costs (Z), not over f64 rounding: with non-representable costs or '
+               'sums above 2^53 a positive computed gain need not be a real decrease']
 
 # ------------------------------------------------------------------ rendering helpers
 def nl(xs):
